@@ -25,7 +25,7 @@ mod=v2; case $first in cmd/*) mod=cmd;; v2/*) mod=v2;; *) mod=.;; esac
 rel=${ddir#$mod/}; [ "$mod" = "." ] && rel=$ddir; [ "$rel" = "$mod" ] && rel=.
 run_demo() { (cd $mod && go test -vet=off -count=1 -run 'TestSeedDemo|SeedDemo' ./$rel/ 2>&1 | tail -3); }
 with=$(run_demo); echo "$with" | grep -q "^ok" && w=PASS || w=FAIL
-git stash -q; without=$(run_demo); echo "$without" | grep -q "^ok" && wo=PASS || wo=FAIL; git stash pop -q
+git apply -R $OUT/patch.diff; without=$(run_demo); echo "$without" | grep -q "^ok" && wo=PASS || wo=FAIL; git apply $OUT/patch.diff
 for d in $DEMOS; do mkdir -p $OUT/demo/$(dirname $d); cp -r $d $OUT/demo/$d; done
 cp SEED_REPORT.md $OUT/ 2>/dev/null
 echo "$ID suite_with_change=$suite demo_with_change=$w demo_without_change=$wo files=$(git diff --name-only | tr '\n' ' ')"
